@@ -77,6 +77,11 @@ func diffOutcome(whole, chunked parseOutcome) string {
 // c07Try runs one (input, script) pair.
 func c07Try(c *core.Ctx, src []byte, whole parseOutcome, steps []mon.Step, kind string) bool {
 	sc := mon.NewScript("in.bcl", src, steps)
+	// a call of another kind in front of some of the file parses (all of them for the tiniest inputs)
+	if h := core.Hash(src, len(steps), kind); len(src) <= 8 || h%64 == 0 {
+		EarlierCall(h >> 6)
+		c.Count("file_parses_after_an_earlier_call_of_another_kind", 1)
+	}
 	got := fileOutcome(sc)
 	c.Eval(1)
 	want := whole
@@ -312,6 +317,18 @@ var c07Fixed = []string{
 	"print \"\xe2\x82\"",
 }
 
+// c07Malformed: every kind of malformed UTF-8 (surrogates, overlong forms, beyond U+10FFFF, cut short, stray
+// continuation and impossible bytes), as a stray character, inside a string, a comment, an identifier, before and after tokens
+func c07Malformed() []string {
+	forms := []string{"\xed\xa0\x80", "\xed\xbf\xbf", "\xe0\x80\x80", "\xe0\x9f\xbf", "\xf0\x80\x80\x80", "\xf0\x8f\xbf\xbf", "\xf4\x90\x80\x80", "\xf5\x80\x80\x80",
+		"\xc0\x80", "\xc1\xbf", "\xe2\x82", "\xf0\x9f\x98", "\xf0\x9f", "\x80", "\xbf\xbf", "\xfe", "\xff\xff", "\xe2\x28\xa1", "\xf0\x28\x8c\xbc", "\xf8\x88\x80\x80\x80"}
+	var out []string
+	for _, f := range forms {
+		out = append(out, f, "print "+f, "print 1 "+f+" 2", "print \""+f+"\"", "# "+f+"\nprint 1", "var x = 1\n"+f+"print x", "print ab"+f, "print 1"+f, f+"\n"+f+" print 1")
+	}
+	return out
+}
+
 func init() {
 	core.Register(&core.Check{
 		ID:    "C07",
@@ -324,7 +341,7 @@ func init() {
 		RaceAlso:      func(tier string) bool { return tier == "thorough" },
 		Run: func(c *core.Ctx) {
 			var i int64
-			for _, s := range c07Fixed {
+			for _, s := range append(append([]string{}, c07Fixed...), c07Malformed()...) {
 				if c.Mine(i) {
 					c.Begin(i)
 					c07Input(c, i, []byte(s), "fixed", c.Rand(i))
